@@ -610,20 +610,28 @@ class IH5Group(IH5InnerNode):
             if isinstance(prev_val, (IH5Group, IH5Dataset)):
                 raise ValueError("Path exists, in order to replace - delete first!")
 
+        removed_del_mark = False
         if path in self._files[-1] and _node_is_del_mark(
             self._get_child_raw(path, self._last_idx)
         ):
             # remove deletion marker in latest patch, if set
             del self._files[-1][path]
+            removed_del_mark = True
         elif path not in self._files[-1]:
             # create path and overwrite-group in latest patch
             self._create_virtual(path)
             assert path in self._files[-1]
             del self._files[-1][path]
 
-        self._files[-1].create_dataset(  # actually create it, finally
-            path, shape=shape, dtype=dtype, data=data, **kwargs
-        )
+        try:
+            self._files[-1].create_dataset(  # actually create it, finally
+                path, shape=shape, dtype=dtype, data=data, **kwargs
+            )
+        except Exception:
+            # creation failed (e.g. value not storable): the deleted entity must stay deleted
+            if removed_del_mark and path not in self._files[-1]:
+                self._files[-1][path] = DEL_VALUE
+            raise
         return IH5Dataset(self._record, path, self._last_idx)
 
     def require_group(self, name: str) -> IH5Group:
